@@ -82,18 +82,22 @@ def u_json_shape(c):
     def dumps(value, *a, **kw):
         seen.append((a, kw))
         return Tracked(json.dumps(value, *a, **kw))
-    V = {"k": ["</script>", "a</b", "<", "/", "<\\/", "</", "<//", "<</"], "</": None}
+    V = {"k": ["</script>", "a</b", "<", "/", "<\\/", "</", "<//", "<</", "<!--x-->", "<![CDATA[x]]>", "\u2028\u2029", "<script>"], "</": None, "<!--": 1}
     with c.patched((E, "json", types.SimpleNamespace(dumps=dumps, loads=json.loads))):
         out = c.call(c.fn(M, "json_encode"), V)
     c.only_raises(out, ())
     c.cover("json_encode")
     if not out.returned:
         return
-    c.oblige("post/no-'</'-and-decodes-back", isinstance(out.value, str) and "</" not in out.value and json.loads(out.value) == V)
+    try:
+        back = json.loads(out.value)
+    except ValueError as e:
+        back = e
+    c.oblige("post/no-'</'-and-decodes-back", isinstance(out.value, str) and "</" not in out.value and back == V)
     if not isinstance(out.value, Tracked) or not seen:
         raise core.Unsupported("json_encode's result is not derived from json.dumps by str.replace: shape not recognised, decided by the stand-in only")
-    if ("</", "<\\/") not in out.value.ops:
-        raise core.Unsupported("json_encode does not apply replace('</', '<\\\\/') to the json.dumps text: shape not recognised, decided by the concrete clause and the stand-in only")
+    if out.value.ops != (("</", "<\\/"),):       # any further rewriting of the JSON text is outside the lemma (it may produce an escape JSON does not have)
+        raise core.Unsupported("json_encode applies %r to the json.dumps text, not exactly replace('</', '<\\\\/'): shape not recognised, decided by the concrete clause and the stand-in only" % (out.value.ops,))
     c.oblige("shape/every-'</'-of-the-json.dumps-text-is-replaced-by-'<\\/'", True)
     c.oblige("shape/json.dumps-is-called-with-its-defaults (ASCII-only, standard separators)", seen == [((), {})] or all(not a and set(kw) <= {"ensure_ascii", "separators", "sort_keys"} for a, kw in seen))
 
@@ -114,7 +118,7 @@ def standin(tier, seed):
     def fail(what, **h):
         if len(failures) < 6:
             failures.append({"what": what, "history": {k: repr(v)[:160] for k, v in h.items()}})
-    ALPHA = list("ab<>&\"' /\\%+=?#;:\t\n\x00\x7f") + ["&amp;", "&lt;", "&#39;", "&#x27;", "&quot;", "&gt", "&amp", "&#38;", "&nbsp;", "&notit;", "</", "<\\/", "é", "ß", "€", "名", "\U0001F600", " ", "﻿", "%41", "%zz", "%", "+", "%2B", "%20", "\xa0", "\x85"]
+    ALPHA = list("ab<>&\"' /\\%+=?#;:\t\n\x00\x7f") + ["&amp;", "&lt;", "&#39;", "&#x27;", "&quot;", "&gt", "&amp", "&#38;", "&nbsp;", "&notit;", "</", "<\\/", "<!--", "-->", "<!", "!", "-", "<script>", "]]>", "\u2028", "\u2029", "\\", "\\u", "é", "ß", "€", "名", "\U0001F600", " ", "﻿", "%41", "%zz", "%", "+", "%2B", "%20", "\xa0", "\x85"]
 
     def text(lo=0, hi=12):
         return "".join(rng.choice(ALPHA) for _ in range(rng.randint(lo, hi)))
